@@ -232,7 +232,7 @@ theorem qGood_holds (target : MG Name) (ds : List Domain) (o c : Event)
     obtain ⟨_, hpop⟩ := validateDomain_facts target d (hvd d hd)
     obtain ⟨v, hv⟩ := List.exists_mem_of_ne_nil _ hne
     have hvr : v ∈ regular d.graph := (TianGraph.seteq'_iff.1 (hseq d hd) v).1 hv
-    simp only [List.all_eq_true, decide_eq_true_eq] at hpop
+    simp only [List.all_eq_true] at hpop
     exact isProb_of_exprVarNames d.pop v (hpop v hvr)
   have hgood := transportFactors_good ds hdsOK factors qs htf
   obtain ⟨hpz, hpv⟩ := trProductSafe_facts qs (fun q hq => by obtain ⟨d, _, hg⟩ := hgood q hq; exact hg.1)
@@ -255,5 +255,39 @@ theorem qGood_holds (target : MG Name) (ds : List Domain) (o c : Event)
   · obtain ⟨n, hn, rfl⟩ := List.mem_map.1 hvr
     obtain ⟨p, hp, rfl⟩ := hsummed n hn
     exact Or.inl ⟨_, hancn p hp, rfl⟩
+
+/-! ### every vertex is a variable of every domain's distribution (what check 15 of the validators establishes) -/
+
+theorem exprVars_eq_iterVars (q : Expr) (v : Var) (h : v ∈ exprVars q) : v ∈ Expr.iterVars q := by
+  cases q with
+  | prob p c pa => simpa [exprVars, Expr.iterVars] using h
+  | _ => simp [exprVars] at h
+
+theorem popsCover_of_validateC (target : MG Name) (ds : List Domain) (o c : Event)
+    (hv : validateC target ds o c = .ok ()) : PopsCoverNodes target ds := by
+  obtain ⟨_, _, _, _, _, _, h⟩ := validateC_facts target ds o c hv
+  unfold validateCommon vErr at h
+  obtain ⟨_, h⟩ := ite_error_ok h
+  obtain ⟨_, h⟩ := ite_error_ok h
+  obtain ⟨_, h⟩ := ite_error_ok h
+  obtain ⟨h4, h⟩ := ite_error_ok h
+  obtain ⟨_, h⟩ := ite_error_ok h
+  obtain ⟨_, h⟩ := ite_error_ok h
+  obtain ⟨_, h⟩ := ite_error_ok h
+  obtain ⟨_, h⟩ := ite_error_ok h
+  obtain ⟨h9, h⟩ := ite_error_ok h
+  obtain ⟨_, h⟩ := ite_error_ok h
+  obtain ⟨_, h⟩ := ite_error_ok h
+  have hne : ds ≠ [] := by intro h0; rw [h0] at h4; exact h4 rfl
+  obtain ⟨d, hd⟩ := List.exists_mem_of_ne_nil _ hne
+  have hseq : seteq' target.nodes (regular d.graph) = true := by
+    simp only [List.any_eq_true, not_exists, not_and, Bool.not_eq_eq_eq_not, Bool.not_true,
+      Bool.not_eq_false] at h9
+    exact h9 d hd
+  obtain ⟨_, hpop⟩ := validateDomain_facts target d (validateDomains_mem target ds h d hd)
+  intro n hn
+  have hnr : n ∈ regular d.graph := (TianGraph.seteq'_iff.1 hseq n).1 hn
+  simp only [List.all_eq_true] at hpop
+  exact ⟨d, hd, exprVars_eq_iterVars d.pop _ ((mem'_iff _ _).1 (hpop n hnr))⟩
 
 end Y0.CtfTr
